@@ -434,8 +434,8 @@ Qed.
 Section Update.
   Context {P : Type}.
   Variable validate : P -> outcome.
-  Variable gx : P -> bool.
-  Notation upd := (update_with validate gx).
+  Variable gx mx : P -> bool.
+  Notation upd := (update_with validate gx mx).
 
   (** either nothing is stored, or the sender was privileged, the set validates, and exactly the
       submitted set is stored *)
@@ -445,10 +445,19 @@ Section Update.
   Proof.
     unfold update_with. destruct (validate p) eqn:Ev.
     - destruct (via =? 1) eqn:E1; [left; simpl; split; [reflexivity|discriminate]|].
-      destruct ((via =? 2) && negb (gx p)); [left; simpl; split; [reflexivity|discriminate]|].
-      right. repeat split; lia.
+      destruct (via =? 2); [destruct (gx p)|destruct (mx p)];
+        try (left; simpl; split; [reflexivity|discriminate]); right; repeat split; lia.
     - left. simpl. split; [reflexivity|]. destruct (via =? 2); discriminate.
     - left. simpl. split; [reflexivity|discriminate].
+  Qed.
+
+  (** an accepted update also passed the module-specific condition of its path *)
+  Lemma update_accepted_extra via p cur :
+    fst (upd via p cur) = Ok -> (if via =? 2 then gx p else mx p) = true.
+  Proof.
+    unfold update_with. destruct (validate p); [|destruct (via =? 2); discriminate|discriminate].
+    destruct (via =? 1); [discriminate|].
+    destruct (via =? 2); [destruct (gx p)|destruct (mx p)]; simpl; intros H; congruence.
   Qed.
 
   Lemma update_unprivileged p cur : snd (upd 1 p cur) = cur.
@@ -495,14 +504,14 @@ Qed.
 
 (** [update_with ... 2] (the via = 2 branch used by the histories) is the two-stage genesis whenever
     the first stage accepts at least what the second accepts *)
-Lemma update_genesis_is_two_stage {P} (validate vg : P -> outcome) gx p cur :
+Lemma update_genesis_is_two_stage {P} (validate vg : P -> outcome) gx mx p cur :
   (validate p = Ok -> vg p = Ok) ->
-  snd (update_with validate gx 2 p cur) = snd (init_genesis vg validate gx p cur)
-  /\ (fst (update_with validate gx 2 p cur) = Ok <-> fst (init_genesis vg validate gx p cur) = Ok).
+  snd (update_with validate gx mx 2 p cur) = snd (init_genesis vg validate gx p cur)
+  /\ (fst (update_with validate gx mx 2 p cur) = Ok <-> fst (init_genesis vg validate gx p cur) = Ok).
 Proof.
   intros Hsub. unfold update_with, init_genesis. change (2 =? 1) with false. change (2 =? 2) with true.
   destruct (validate p) eqn:Ev.
-  - rewrite (Hsub eq_refl). cbn [andb]. destruct (gx p); simpl; split; try reflexivity; split; auto; discriminate.
+  - rewrite (Hsub eq_refl). destruct (gx p); simpl; split; try reflexivity; split; auto; discriminate.
   - destruct (vg p); simpl; split; try reflexivity; split; discriminate.
   - destruct (vg p); simpl; split; try reflexivity; split; discriminate.
 Qed.
@@ -548,8 +557,8 @@ Lemma step_not_accepted_keeps_state s st : upd_outcome s st <> Some Ok -> pstep_
 Proof.
   destruct s; destruct st; simpl; intros Hn; try reflexivity;
     unfold update_cs, update_fm, update_ht, update_sv, update_tk in *;
-    match goal with |- context [update_with ?v ?g ?via ?p ?cur] =>
-      destruct (update_with_cases v g via p cur) as [[H1 _]|(_ & _ & He)];
+    match goal with |- context [update_with ?v ?g ?mx ?via ?p ?cur] =>
+      destruct (update_with_cases v g mx via p cur) as [[H1 _]|(_ & _ & He)];
         [rewrite H1; reflexivity|rewrite He in Hn; simpl in Hn; congruence] end.
 Qed.
 
@@ -572,6 +581,26 @@ Lemma run_keeps_valid h : forall s, ps_valid s -> ps_valid (run s h).
 Proof.
   unfold run. induction h as [|st h IH]; intros s Hs; [exact Hs|].
   simpl. apply IH. apply step_keeps_valid. exact Hs.
+Qed.
+
+(** token: the stored issue fee is always denominated in a registered symbol (what InitGenesis asserts
+    when an exported genesis is imported) *)
+Lemma step_keeps_fee_registered s st :
+  tk_fee_registered (ps_tk s) = true -> tk_fee_registered (ps_tk (pstep_state s st)) = true.
+Proof.
+  intros Hs. destruct st; simpl; try exact Hs.
+  unfold update_tk.
+  destruct (update_with_cases validate_tk tk_fee_registered tk_fee_registered via p (ps_tk s)) as [[H1 _]|(_ & _ & He)].
+  - rewrite H1. exact Hs.
+  - pose proof (update_accepted_extra validate_tk tk_fee_registered tk_fee_registered via p (ps_tk s)) as Hx.
+    rewrite He in *. simpl in *. specialize (Hx eq_refl). destruct (via =? 2); exact Hx.
+Qed.
+
+Lemma run_keeps_fee_registered h : forall s,
+  tk_fee_registered (ps_tk s) = true -> tk_fee_registered (ps_tk (run s h)) = true.
+Proof.
+  unfold run. induction h as [|st h IH]; intros s Hs; [exact Hs|].
+  simpl. apply IH. apply step_keeps_fee_registered. exact Hs.
 Qed.
 
 Lemma defaults_validate_lemma :
